@@ -466,6 +466,7 @@ RULES = [
     ("C12-R3", "each negative text operator is the complement of its positive twin on every scenario (cache hit or miss, wildcard, invalid pattern) [shared with C12]", lambda ctx: __import__("c12").r3(ctx)),
     ("C02-R3", "every documented operator spelling denotes its operator (Op::from evaluated on all spellings x letter cases) [shared with C02]", lambda ctx: __import__("c02").r3(ctx)),
     ("X-OPERANDS", "each operand of a comparison is evaluated afresh (no memo shared between operands or conditions: a remembered value comes back as text) [shared]", lambda ctx: __import__("conf").operands_evaluated_afresh(ctx)),
+    ("X-REEVAL", "an expression evaluated twice for one entry has the same typed value both times (no text-valued memo beside the map handed in) [shared]", lambda ctx: __import__("gcev").reevaluation_is_stable(ctx)),
 ]
 
 EXPLANATION = (
